@@ -14,6 +14,7 @@ from c12 import table, get_class, attr_value, CLASSES
 
 WRONG = {
     ('dateTime', 'text'): 'yesterday', ('dateTime', 'badfields'): '2020-13-45T25:61:61Z',
+    ('dateTime', 'trailing'): '2020-01-02T03:04:05Z and then some', ('dateTime', 'dateonly'): '2020-01-02',
     ('boolean', 'text'): 'maybe', ('integer', 'text'): 'seven', ('integer', 'fraction'): '1.5',
     ('nonNegativeInteger', 'text'): 'x', ('nonNegativeInteger', 'negative'): '-1',
     ('positiveInteger', 'text'): 'x', ('positiveInteger', 'zero'): '0',
